@@ -268,12 +268,12 @@ fn cfg() -> gen::Cfg {
 pub fn run(ctx: &RunCtx) -> Outcome {
     let p = Options;
     let mut o = Outcome::default();
-    o.rule = "patterns over mixed-case literals {a,B}, classes, \\w, ., \\b, back-references, groups, atomic groups, four look-arounds, quantifiers and scoped (?i:..) / (?-i:..) groups (exhaustive trees by node count, proptest random ASTs); texts over {a,A,b,B} (<=4). Per (pattern, text, offset): RegexBuilder(P).case_insensitive(true) must equal Regex::new(\"(?i)\"+P) on captures (and find_iter); case_insensitive(false) + huge backtrack / size limits and a 1-byte DFA size limit must equal the plain pattern; under backtrack_limit 0 / 2 / 6 find_from_pos, captures_from_pos and is_match each return BacktrackLimitExceeded or the unlimited answer, and agree on which; case_insensitive(true) combined with backtrack_limit (either call order) equals (?i)P under the same limit. Per VM pattern and delegate_size_limit L in {1, 3000, 40000}: the build fails (with InnerError; also when combined with a DFA size limit in either order) iff one of the delegated pieces of the program, built alone through regex::RegexBuilder::size_limit(L), fails. Non-trivial = VM-compiled pattern with a letter and a text that matches only case-insensitively. Distinct = distinct (pattern, text, offset).".into();
+    o.rule = "patterns over mixed-case literals {a,B}, classes, \\w, ., \\b, back-references, groups, atomic groups, four look-arounds, quantifiers and scoped (?i:..) / (?-i:..) groups (exhaustive trees by node count, proptest random ASTs); texts over {a,A,b,B} (<=4). Per (pattern, text, offset): RegexBuilder(P).case_insensitive(true) must equal Regex::new(\"(?i)\"+P) on captures (and find_iter); case_insensitive(false) + huge backtrack / size limits and a 1-byte DFA size limit must equal the plain pattern; under backtrack_limit 0 / 2 / 6 find_from_pos, captures_from_pos and is_match each return BacktrackLimitExceeded or the unlimited answer, and agree on which; case_insensitive(true) combined with backtrack_limit (either call order) equals (?i)P under the same limit. Per VM pattern and delegate_size_limit L in {1, 3000, 40000}: the build fails (with InnerError; also when combined with a DFA size limit in either order) iff one of the delegated pieces of the program, built alone through regex::RegexBuilder::size_limit(L), fails. Size probes: 18 large counted repeats (\\w{n}, (?i)\\pL{n}, [a-z]{n}, (?:ab|c){n}) alone and inside five fancy hosts, built without options and with delegate_size_limit(1<<30): the build fails iff the regex crate rejects the repeat with its default / that limit (probes whose verdict changes between 4 MiB and 25 MiB are skipped). Non-trivial = VM-compiled pattern with a letter and a text that matches only case-insensitively. Distinct = distinct (pattern, text, offset).".into();
     o.assumptions = vec![
         "regex::RegexBuilder::size_limit forwards to the same regex-automata NFA size limit that delegate_size_limit is documented to forward to".into(),
         "delegate_dfa_size_limit is only checked for not changing results (the regex crate maps its dfa_size_limit to a different knob)".into(),
     ];
-    o.required_classes = vec!["backtrack_limit:hit".into(), "engine:VM".into(), "engine:Wrap".into(), "match:only-case-insensitively".into(), "size-limit:rejects".into(), "size-limit:accepts".into()];
+    o.required_classes = vec!["backtrack_limit:hit".into(), "engine:VM".into(), "engine:Wrap".into(), "match:only-case-insensitively".into(), "size-limit:rejects".into(), "size-limit:accepts".into(), "size-probe:default-rejects".into(), "size-probe:default-accepts".into()];
     let quick = ctx.quick();
     let n = if quick { 3 } else { 4 };
     let pats = space(&cfg(), n, false);
@@ -288,6 +288,66 @@ pub fn run(ctx: &RunCtx) -> Outcome {
         let t2 = gen::texts(&['a', 'A', 'B'], 2);
         if !stage(ctx, &mut o, &p, "mixed-case grammar N=4 (short texts)", &p4, &t2) {
             return o;
+        }
+    }
+    // default size limit: without any option a delegated piece is still bounded by the automata engine's default
+    // (a plain pattern that the regex crate rejects as too big must be rejected inside a fancy pattern too)
+    if o.violations.is_empty() {
+        let mut probes: Vec<String> = vec![];
+        for n in [10usize, 60, 150, 300, 600] {
+            probes.push(format!("\\w{{{}}}", n));
+            probes.push(format!("(?i)\\pL{{{}}}", n));
+        }
+        for n in [100usize, 2_000, 20_000, 200_000] {
+            probes.push(format!("[a-z]{{{}}}", n));
+            probes.push(format!("(?:ab|c){{{}}}", n));
+        }
+        let hosts: [(&str, &str); 6] = [("", ""), ("(?=", ")a"), ("(?>", ")b"), ("(?<!x)", ""), ("(", ")\\1"), ("(?!q)", "(?=)")];
+        let mb = 1usize << 20;
+        for pr in &probes {
+            let build_rx = |lim: Option<usize>| {
+                let mut b = regex::RegexBuilder::new(pr);
+                if let Some(l) = lim {
+                    b.size_limit(l);
+                }
+                b.build().is_err()
+            };
+            let want_fail = build_rx(None);
+            if build_rx(Some(4 * mb)) != want_fail || build_rx(Some(25 * mb)) != want_fail {
+                o.stats.skip("size-probe:near-the-default-threshold");
+                continue;
+            }
+            for (pre, post) in hosts {
+                let pat = format!("{}{}{}", pre, pr, post);
+                o.stats.evaluations += 1;
+                let got = engine::build(&pat);
+                let (got_fail, kind) = match &got {
+                    Built::Ok(_) => (false, String::new()),
+                    Built::Err(e) => (true, engine::err_kind(e)),
+                    Built::Panic(p) => (true, format!("PANIC({})", p)),
+                };
+                let case = serde_json::json!({"pattern": pat, "probe": pr, "options": "none"});
+                if let Built::Ok(re) = &got {
+                    // the host must hand the probe to the automata engine in one piece (a VM-interpreted counted
+                    // loop around a small piece is a different, legitimately small program)
+                    if engine::is_vm(re) && !engine::program_shape(&pat).map_or(false, |(d, _)| d.iter().any(|x| x.contains(pr.trim_start_matches("(?i)")))) {
+                        o.stats.skip("size-probe:not-delegated-in-one-piece");
+                        continue;
+                    }
+                }
+                if got_fail != want_fail || (got_fail && kind != "InnerError") {
+                    o.violations.push(Violation { case, fail: Fail::new("default-size-limit", format!("build fails = {} (regex::Regex::new({:?}) with its default size limit; the same at 4 MiB and 25 MiB)", want_fail, pr), format!("build fails = {} {}", got_fail, kind)) });
+                    return o;
+                }
+                // an explicit generous / tiny limit still decides
+                let big = matches!(engine::build_with(&pat, |b| { b.delegate_size_limit(1 << 30); }), Built::Err(_));
+                let want_big = regex::RegexBuilder::new(pr).size_limit(1 << 30).build().is_err();
+                if big != want_big {
+                    o.violations.push(Violation { case: serde_json::json!({"pattern": pat, "probe": pr, "options": "delegate_size_limit(1<<30)"}), fail: Fail::new("default-size-limit", format!("build fails = {}", want_big), format!("build fails = {}", big)) });
+                    return o;
+                }
+                o.stats.class(if want_fail { "size-probe:default-rejects" } else { "size-probe:default-accepts" });
+            }
         }
     }
     let rcfg = RandCfg { lits: vec!['a', 'B', 'b', 'A'], keepout: true, ..RandCfg::core() };
